@@ -60,7 +60,7 @@ MUTANTS = [
     M("c02-zeropoint-subtracted", "C02", "break", [(AFF, "torch.round(base / scale) + zeropoint", "torch.round(base / scale) - zeropoint")], "C02.R1"),
     M("c02-size-after-group", "C02", "break", [(AFF, "        size = base.size()\n        stride = base.stride()\n        if group_size is not None:\n            base = group(base, axis=axis, group_size=group_size)\n", "        if group_size is not None:\n            base = group(base, axis=axis, group_size=group_size)\n        size = base.size()\n        stride = base.stride()\n")], "C02.R2"),
     M("c02-group-axis-fixed", "C02", "break", [(AFF, "base = group(base, axis=axis, group_size=group_size)", "base = group(base, axis=0, group_size=group_size)")], "C02.R1"),
-    M("c02-dequant-uint8-sub", "C02", "break", [(QBITS, "int8_data = unpacked.to(torch.int8) - t._zeropoint.to(torch.int8)", "int8_data = unpacked - t._zeropoint.to(torch.uint8)")], "C02.R3"),
+    M("c02-dequant-uint8-sub", "C02", "break", [(QBITS, "shifted_data = unpacked.to(torch.int16) - t._zeropoint.to(torch.int16)", "shifted_data = unpacked - t._zeropoint.to(torch.uint8)")], "C02.R3"),
     M("c02-dequant-no-ungroup", "C02", "break", [(QBITS, "        return ungroup(dqt, axis=t.axis, orig_shape=t.shape)", "        return dqt.reshape(t.shape)")], "C02.R3"),
     M("c02-ungroup-wrong-perm", "C02", "break", [(GROUP, "    ungrouped = ungrouped.permute(2, 0, 1)", "    ungrouped = ungrouped.permute(2, 1, 0)")], "C02.R4"),
     M("c02-group-last-axis-like-first", "C02", "break", [(GROUP, "    grouped = grouped.permute(1, 2, 0)\n    return grouped.reshape(group_size, axis_dim * axis_groups)", "    grouped = grouped.permute(1, 0, 2)\n    return grouped.reshape(group_size, axis_dim * axis_groups)")], "C02.R4"),
